@@ -223,6 +223,10 @@ def run(prog, rep, tier):
     _c12.r121(prog, rep, R27)
     rep.floor("R2.7", 3)
 
+    # ------------------------------------------------------------ R2.8 (shared with C12 R12.6)
+    R28 = rep.rule("R2.8", "a first line longer than the block is still seen by stage 1 (shared with C12 R12.6)")
+    _c12.partial_extent(prog, rep, R28)
+
     # ------------------------------------------------------------ R2.6 NUL bytes are content
     import blockzero
     R26 = rep.rule("R2.6", "stage 1 dismisses a file for NUL bytes only if every examined byte is NUL")
